@@ -467,7 +467,9 @@ class WsgiApplication(HttpBase):
                                                                  start_response)
 
         assert p_ctx.out_object is not None
-        g = next(iter(p_ctx.out_object))
+        # (an empty sequence where several return values are declared has no
+        # first item: it is no generator either)
+        g = next(iter(p_ctx.out_object), None)
         is_generator = len(p_ctx.out_object) == 1 and isgenerator(g)
 
         # if the out_object is a generator function, this hack makes the user
